@@ -247,6 +247,12 @@ let handle (line : string) : string =
       | None -> "linecol none"
       | Some (l, c) -> Printf.sprintf "linecol %d %d" (int_of_n l) (int_of_n c))
   | "run" -> run_cmd f
+  | "lockread" -> (
+      match lock_read (decode (unhex f.(1))) with
+      | RValid n -> Printf.sprintf "lock V%d" (int_of_n n)
+      | RCorrupt -> "lock C"
+      | RUnknown -> "lock U")
+  | "locktext" -> "locktext " ^ hex (encode (lock_text (n_of_int (int_of_string f.(1)))))
   | "finder" -> finder_cmd f
   | _ -> "ERR unknown command"
 
